@@ -158,59 +158,9 @@ def run(rep: Report, prog: Program, tier: str) -> None:
     else:
         rep.fail(mk_finding(prog, PROP, "C06-FIRST", up, up.node, f"FORWARD-TSN chunks are also built in {builders}", construct="FORWARD-TSN builders"))
 
-    # ================================================================ evaluation glue
-    def extra(call: ast.Call, ev: Evaluator) -> Any:
-        name = unparse(call.func)
-        if name == "time.time":
-            return 1000.0
-        if name == "cast" and len(call.args) == 2:
-            return ev.ev(call.args[1])
-        if isinstance(call.func, ast.Attribute) and call.func.attr in ("popleft", "append", "appendleft", "index", "pop", "clear", "extend", "remove", "insert"):
-            try:
-                base = ev.ev(call.func.value)
-            except Unknown:
-                base = None
-            if isinstance(base, deque):
-                try:
-                    return getattr(base, call.func.attr)(*[ev.ev(a) for a in call.args])
-                except (ValueError, IndexError) as ex:
-                    raise Raised(type(ex).__name__, call)
-        if name in ("self.__log_debug", "logger.debug", "logger.warning"):
-            return None
-        if name == "filter" and len(call.args) == 2 and isinstance(call.args[0], ast.Name) and call.args[0].id in ev.env:
-            out = []
-            for x in list(ev.ev(call.args[1])):
-                ev.env["__flt"] = x
-                if ev.ev(ast.Call(func=call.args[0], args=[ast.Name(id="__flt", ctx=ast.Load())], keywords=[])):
-                    out.append(x)
-            return out
-        if name == "list" and len(call.args) == 1:
-            return list(ev.ev(call.args[0]))
-        if name == "ForwardTsnChunk" and not call.args:
-            return SimpleNamespace(cumulative_tsn=0, streams=[], flags=0)
-        if name == "self._receive":
-            args = []
-            for a in call.args:
-                if isinstance(a, ast.Starred):
-                    args.extend(ev.ev(a.value))
-                else:
-                    args.append(ev.ev(a))
-            ev.env["self"].delivered.append(tuple(args))
-            return None
-        return NotImplemented
-
-    hook = make_hook(prog, extra)
-
-    def chunk(tsn: int, stream: int, seq: int, flags: int, data: bytes, policy: Optional[int] = None, sent: int = 1) -> Any:
-        return SimpleNamespace(tsn=tsn, stream_id=stream, stream_seq=seq, flags=flags, protocol=53, user_data=data, _abandoned=False, _acked=False, _retransmit=False,
-                               _book_size=len(data), _expiry=None, _max_retransmits=policy, _misses=0, _sent_count=sent, _sent_time=1.0 if sent else None)
-
-    def message(first_tsn: int, stream: int, seq: int, nfrag: int, unordered: bool, policy: Optional[int], tag: str, nsent: Optional[int] = None) -> List[Any]:
-        out = []
-        for i in range(nfrag):
-            fl = (UNORD if unordered else 0) | (FIRST if i == 0 else 0) | (LAST if i == nfrag - 1 else 0)
-            out.append(chunk(first_tsn + i, stream, seq, fl, f"{tag}{i}".encode(), policy, 1 if nsent is None or i < nsent else 0))
-        return out
+    # ================================================================ evaluation glue (rules/sctpmodel.py)
+    from .sctpmodel import build
+    hook, chunk, message = build(prog)
 
     # ================================================================ C06-WHOLE
     rep.rule("C06-WHOLE", "abandonment covers exactly one whole message, sent and unsent fragments alike", min_instances=44)
